@@ -68,9 +68,22 @@ def build(src, out):
     for f in list(tr.funcs.values()):
         if f.mod is xf: tr.emit(f)
 
+    # ------------------------------------------------------------ arc_to_cubic
+    arc = Module(tr, 'arc_to_cubic', P('arc_to_cubic'), 'G_arc', [geom, xf])
+    tr.add_record(arc, 'CenterParametrization')
+    tr.add_record(arc, 'EllipticalArc')
+    D = lambda *a, **k: tr.declare(arc, *a, **k)
+    D('EllipticalArc.is_straight_line')
+    D('EllipticalArc.is_zero_length', {'return': 'bool'})
+    D('EllipticalArc.correct_out_of_range_radii', {'return': 'EllipticalArc'})
+    D('EllipticalArc.end_to_center_parametrization', raises=True)
+    D('_arc_to_cubic', {'arc': 'EllipticalArc', 'return': '[(Point,Point,Point)]'}, gen=True, raises=True)
+    for f in list(tr.funcs.values()):
+        if f.mod is arc: tr.emit(f)
+
     os.makedirs(out, exist_ok=True)
     done = []
-    for m in (geom, xf):
+    for m in (geom, xf, arc):
         write_module(m, out, done)
         done.append(m.coqfile)
     return done
